@@ -165,3 +165,29 @@ class BadRepr(object):
 
     def __reduce__(self):
         raise TypeError('BadRepr cannot be pickled')
+
+
+# arguments that are long strings with a long common prefix (keys longer than a file name may be); the value names the argument
+LONGP = 'v' * 270
+
+
+def _lvalue(x):
+    return ('long', x[len(LONGP):]) if isinstance(x, str) else _value(x, 0)
+
+
+def l1(x, y=0):
+    _body('l1', x, y)
+    return _lvalue(x)
+
+
+def l2(x, y=0):
+    _body('l2', x, y)
+    return _lvalue(x)
+
+
+def l3(x, y=0):
+    _body('l3', x, y)
+    return _lvalue(x)
+
+
+LFUNCS = [l1, l2, l3]
